@@ -170,9 +170,12 @@ class PLIST(Filetype):
     def build_tree_handling_errors(self, path: str, options: Optional[BuildOptions] = None) -> Union[str, TreeNode]:
         try:
             return self.build_tree(path=path, options=options)
-        except (ExpatError, ValueError, IndexError) as ee:
+        except (ExpatError, ValueError, IndexError, AttributeError, LookupError, MemoryError, OverflowError,
+                RecursionError) as ee:
             # plistlib raises InvalidFileException (a ValueError) for files that are not PLISTs at all, and lets
-            # ValueError/IndexError escape for well-formed XML that is not a valid PLIST (bad numbers, stray tags)
+            # ValueError/IndexError escape for well-formed XML that is not a valid PLIST (bad numbers, stray tags),
+            # AttributeError for a malformed <date>, LookupError for an unknown encoding, and MemoryError,
+            # OverflowError or RecursionError for corrupt binary PLISTs (absurd sizes, reference cycles)
             return f'Error parsing {os.path.basename(path)}: {ee})'
 
     def get_default_formatter(self) -> PLISTFormatter:
